@@ -475,3 +475,223 @@ Proof. exact sqrt_increasing_on_nonneg. Qed.
 (* a three-node vector satisfying nodes_ok and post_ok *)
 Example C12_ex_nodes : nodes_ok ex_nodes = true /\ post_ok ex_nodes = true /\ (2 < length ex_nodes)%nat.
 Proof. split; [reflexivity|]. split; [reflexivity|]. cbn. lia. Qed.
+
+(* ---------------- rounding: binary64 makes the same decision as exact arithmetic ----------------
+   Everything above is about exact real arithmetic (ROps).  The theorems below are about the binary64
+   instance (FOps, Coq primitive floats) of the SAME model definitions — the instance the per-run
+   correspondence executes against src/cluster/kmeans.rs bit for bit — proved through Flocq's
+   primitive-float bridge (SC.Base.FloatError, SC.C17.ProofsFloat, SC.C12.ProofsFloat); extra
+   assumptions: the FloatAxioms / Uint63 specification axioms of Coq's standard library that give
+   primitive floats their meaning.
+   Vocabulary: `FR d` = the real value of the float d (0 for infinities and NaN); `map FR x` the real
+   vector of a float vector; u64 = 2^-53, eta64 = 2^-1075.  For p coordinates and exact squared distance
+   D the error bound of the computed squared distance is
+       err(D) = ((1 + u64)^(p+2) - 1) * (D + p * eta64) + p * eta64
+   (relative error of p+2 roundings plus p underflow terms).  The only no-overflow hypothesis is that
+   every COMPUTED squared distance is finite: non-finite values are absorbing for + - *, so all
+   coordinates and all intermediates are then finite and nothing overflowed. *)
+From Coq Require Import Floats.
+From SC Require Import Base.FloatUtil Base.FloatError C12.ProofsFloat C12.ProofsFloatEx.
+From SC Require C17.Model.
+
+(* the model's squared distance is, for every instance of the scalar operations, the same left fold
+   as C17's Euclidian::squared_distance model (so C17_squared_euclidean_float_error applies to it) *)
+Theorem C12_sqdist_same_fold : forall (T : Type) (O : Ops T) (x y : list T),
+  sqdist O x y = C17.Model.sq_dist_loop O x y.
+Proof. exact @sqdist_is_C17. Qed.
+
+(* the computed squared distance of two float vectors of equal length, if finite, is within err(D) of
+   the exact squared distance D of their real values; without the underflow terms when every
+   coordinate difference is zero or at least 2^-510 in magnitude *)
+Theorem C12_sqdist_float_error : forall x y : list PrimFloat.float,
+  length x = length y -> PrimFloat.is_finite (sqdist FOps x y) = true ->
+  let p := length x in
+  let D := sqdist ROps (map FR x) (map FR y) in
+  0 <= D /\ 0 <= FR (sqdist FOps x y) /\
+  Rabs (FR (sqdist FOps x y) - D) <= ((1 + u64) ^ (p + 2) - 1) * (D + INR p * eta64) + INR p * eta64 /\
+  ((forall a b, In (a, b) (combine x y) -> FR a = FR b \/ / 2 ^ 510 <= Rabs (FR a - FR b)) ->
+   Rabs (FR (sqdist FOps x y) - D) <= ((1 + u64) ^ (p + 2) - 1) * D).
+Proof. exact sqdist_float_error. Qed.
+
+(* KMeans::predict, one row, binary64: for float centroids of the row's dimension and a float row such
+   that every computed squared distance is finite, if centroid js is closer IN EXACT ARITHMETIC than
+   every other centroid by more than the two error bounds, and its exact distance plus its error bound
+   is below the real value of the loop's initial `max_value` (this also forces maxv to be finite), then
+   the binary64 instance returns js — and so does the exact-arithmetic instance on the real values *)
+Theorem C12_predict_row_float_robust :
+  forall (maxv : PrimFloat.float) (cents : list (list PrimFloat.float)) (row : list PrimFloat.float) (js : nat),
+  (forall c, In c cents -> length c = length row /\ PrimFloat.is_finite (sqdist FOps row c) = true) ->
+  let p := length row in
+  let err := fun D => ((1 + u64) ^ (p + 2) - 1) * (D + INR p * eta64) + INR p * eta64 in
+  let D := fun j => sqdist ROps (map FR row) (map FR (nth j cents [])) in
+  (js < length cents)%nat ->
+  D js + err (D js) < FR maxv ->
+  (forall j, (j < length cents)%nat -> j <> js -> err (D j) + err (D js) < D j - D js) ->
+  predict_row FOps maxv cents row = js /\
+  predict_row ROps (FR maxv) (map (map FR) cents) (map FR row) = js.
+Proof. exact predict_row_float_robust. Qed.
+
+(* the same with js := THE LABEL THE EXACT-ARITHMETIC INSTANCE RETURNS (by C12_predict_row_argmin the
+   first centroid at minimal exact squared distance): under the margin the binary64 computation makes
+   the same decision *)
+Theorem C12_predict_float_robust :
+  forall (maxv : PrimFloat.float) (cents : list (list PrimFloat.float)) (row : list PrimFloat.float),
+  (forall c, In c cents -> length c = length row /\ PrimFloat.is_finite (sqdist FOps row c) = true) ->
+  let p := length row in
+  let err := fun D => ((1 + u64) ^ (p + 2) - 1) * (D + INR p * eta64) + INR p * eta64 in
+  let D := fun j => sqdist ROps (map FR row) (map FR (nth j cents [])) in
+  let js := predict_row ROps (FR maxv) (map (map FR) cents) (map FR row) in
+  D js + err (D js) < FR maxv ->
+  (forall j, (j < length cents)%nat -> j <> js -> err (D j) + err (D js) < D j - D js) ->
+  predict_row FOps maxv cents row = js.
+Proof. exact predict_row_float_agrees. Qed.
+
+(* the matrix form: KMeans::predict on a float model and a float query matrix returns exactly the
+   labels that the exact-arithmetic instance returns on the real values of the same model and matrix
+   (kmeans_R m: the same k, centroids mapped through FR), when every row is separated as above *)
+Theorem C12_predict_matrix_float_robust :
+  forall (maxv : PrimFloat.float) (m : kmeans (T := PrimFloat.float)) (x : list (list PrimFloat.float)),
+  let cents := firstn (km_k m) (km_centroids m) in
+  (forall row, In row x ->
+     (forall c, In c cents -> length c = length row /\ PrimFloat.is_finite (sqdist FOps row c) = true) /\
+     let p := length row in
+     let err := fun D => ((1 + u64) ^ (p + 2) - 1) * (D + INR p * eta64) + INR p * eta64 in
+     let D := fun j => sqdist ROps (map FR row) (map FR (nth j cents [])) in
+     let js := predict_row ROps (FR maxv) (map (map FR) cents) (map FR row) in
+     D js + err (D js) < FR maxv /\
+     (forall j, (j < length cents)%nat -> j <> js -> err (D j) + err (D js) < D j - D js)) ->
+  predict FOps maxv m x =
+  predict ROps (FR maxv)
+          (mkKMeans (km_k m) (km_y m) (km_size m) (FR (km_distortion m)) (map (map FR) (km_centroids m)))
+          (map (map FR) x).
+Proof. exact predict_float_agrees. Qed.
+
+(* the hypotheses are satisfiable: centroids (0.1, 0.2), (5.3, 4.1), (-3.7, 6.9), query rows (5.1, 4.4)
+   and (5.5, 3.9) (nearest binary64 numbers: every operation rounds), max_value = f64::MAX; all
+   hypotheses of C12_predict_matrix_float_robust hold and the labels are 1, 1 *)
+Example C12_predict_float_robust_instance :
+  let maxv := 0x1.fffffffffffffp+1023%float in
+  let m := mkKMeans 3 [] [] 0%float
+             [[0x1.999999999999ap-4; 0x1.999999999999ap-3]; [0x1.5333333333333p+2; 0x1.0666666666666p+2];
+              [-0x1.d99999999999ap+1; 0x1.b99999999999ap+2]]%float in
+  let x := [[0x1.4666666666666p+2; 0x1.199999999999ap+2]; [0x1.6p+2; 0x1.f333333333333p+1]]%float in
+  let cents := firstn (km_k m) (km_centroids m) in
+  (forall row, In row x ->
+     (forall c, In c cents -> length c = length row /\ PrimFloat.is_finite (sqdist FOps row c) = true) /\
+     let p := length row in
+     let err := fun D => ((1 + u64) ^ (p + 2) - 1) * (D + INR p * eta64) + INR p * eta64 in
+     let D := fun j => sqdist ROps (map FR row) (map FR (nth j cents [])) in
+     let js := predict_row ROps (FR maxv) (map (map FR) cents) (map FR row) in
+     D js + err (D js) < FR maxv /\
+     (forall j, (j < length cents)%nat -> j <> js -> err (D j) + err (D js) < D j - D js)) /\
+  predict FOps maxv m x = [1; 1]%nat.
+Proof. exact ex_float_robust. Qed.
+
+(* THE MARGIN IS NEEDED.  Two inputs made of exactly representable integers (row = origin,
+   max_value = f64::MAX, every computed distance finite, exact distance far below max_value) on which
+   the binary64 instance and the exact-arithmetic instance return different labels:
+   (a) exact squared distances 2^54 + 1 and 2^54 (adjacent integers; one ulp is 4 there) are both
+       computed as 2^54: the strict `<` keeps centroid 0 although centroid 1 is strictly closer;
+   (b) exact 2^54 + 3 < 2^54 + 4, computed 2^54 + 4 > 2^54 (in the first centroid the small squares
+       are accumulated before the large one and survive, in the second each + 1 is absorbed): binary64
+       attaches the row to the strictly FARTHER centroid 1. *)
+Theorem C12_predict_float_margin_needed_refuted :
+  let maxv := 0x1.fffffffffffffp+1023%float in
+  let err := fun (p : nat) D => ((1 + u64) ^ (p + 2) - 1) * (D + INR p * eta64) + INR p * eta64 in
+  (let cents := [[134217728; 1]; [134217728; 0]]%float in
+   let row := [0; 0]%float in
+   (forall c, In c cents -> length c = length row /\ PrimFloat.is_finite (sqdist FOps row c) = true) /\
+   sqdist ROps (map FR row) (map FR (nth 0 cents [])) = 2 ^ 54 + 1 /\
+   sqdist ROps (map FR row) (map FR (nth 1 cents [])) = 2 ^ 54 /\
+   sqdist FOps row (nth 0 cents []) = sqdist FOps row (nth 1 cents []) /\
+   2 ^ 54 + err 2%nat (2 ^ 54) < FR maxv /\
+   predict_row ROps (FR maxv) (map (map FR) cents) (map FR row) = 1%nat /\
+   predict_row FOps maxv cents row = 0%nat) /\
+  (let cents := [[1; 1; 1; 134217728; 0]; [134217728; 1; 1; 1; 1]]%float in
+   let row := [0; 0; 0; 0; 0]%float in
+   (forall c, In c cents -> length c = length row /\ PrimFloat.is_finite (sqdist FOps row c) = true) /\
+   sqdist ROps (map FR row) (map FR (nth 0 cents [])) = 2 ^ 54 + 3 /\
+   sqdist ROps (map FR row) (map FR (nth 1 cents [])) = 2 ^ 54 + 4 /\
+   (2 ^ 54 + 3) + err 5%nat (2 ^ 54 + 3) < FR maxv /\
+   predict_row ROps (FR maxv) (map (map FR) cents) (map FR row) = 0%nat /\
+   predict_row FOps maxv cents row = 1%nat).
+Proof. split; [exact ex_margin_needed_tie | exact ex_margin_needed_flip]. Qed.
+
+(* ---------------- the same robustness for the exhaustive 1-nearest-neighbour search (C04's model) ----
+   Hosted here because it reuses the machinery above; nothing in C04's files is touched.
+   SC.C04.Model.linear_find is the model of LinearKNNSearch::find (src/algorithm/neighbour/
+   linear_search.rs), generic in the distance type, its two comparisons and the sentinel; C04's
+   correspondence runs it at binary64 with the sentinel +infinity.  `dq i` is the computed distance
+   from the query to data point i. *)
+From SC Require C04.Model.
+From SC Require C17.ProofsFloat.
+From SC Require Import C12.ProofsFloatKnn.
+
+(* any metric: computed distances dq i, all finite, within e i of the exact distances R_ i; if point js
+   is closer in exact arithmetic than every other point by more than the two error bounds, the binary64
+   search with k = 1 returns exactly (js, dq js); js is the exact strict nearest neighbour, and the
+   exact-arithmetic instance (any sentinel above all distances) returns js as well *)
+Theorem C12_knn1_float_robust : forall (dq : nat -> PrimFloat.float) (R_ e : nat -> R) (n js : nat),
+  (js < n)%nat ->
+  (forall i, (i < n)%nat -> PrimFloat.is_finite (dq i) = true /\ Rabs (FR (dq i) - R_ i) <= e i) ->
+  (forall j, (j < n)%nat -> j <> js -> e j + e js < R_ j - R_ js) ->
+  C04.Model.linear_find PrimFloat.ltb PrimFloat.leb infinity dq n 1 = Some [(js, dq js)] /\
+  (forall j, (j < n)%nat -> j <> js -> R_ js < R_ j) /\
+  (forall dinfR, (forall i, (i < n)%nat -> R_ i < dinfR) ->
+     C04.Model.linear_find Rltb Rleb dinfR R_ n 1 = Some [(js, R_ js)]).
+Proof. exact knn1_float_robust. Qed.
+
+(* the Euclidean metric of the k-NN estimators, sqrt of the squared-distance fold (euclidF x y =
+   PrimFloat.sqrt (C17.Model.sq_dist_loop FOps x y), the term C04's Corr.v calls `euclid`), on float data
+   points and a float query of dimension p, every computed distance finite and no underflow in the
+   squares (decidable check diff_normal_b): margin ((1+u64)^(p+3) - 1) * (R_j + R_js) < R_j - R_js *)
+Theorem C12_knn1_euclid_float_robust :
+  forall (data : list (list PrimFloat.float)) (q : list PrimFloat.float) (js : nat),
+  let n := length data in
+  let p := length q in
+  let dq := fun i => PrimFloat.sqrt (C17.Model.sq_dist_loop FOps q (nth i data [])) in
+  let R_ := fun i => R_sqrt.sqrt (sqdist ROps (map FR q) (map FR (nth i data []))) in
+  (js < n)%nat ->
+  (forall i, (i < n)%nat -> length (nth i data []) = p /\ PrimFloat.is_finite (dq i) = true /\
+                            C17.ProofsFloat.diff_normal_b q (nth i data []) = true) ->
+  (forall j, (j < n)%nat -> j <> js -> ((1 + u64) ^ (p + 3) - 1) * (R_ j + R_ js) < R_ j - R_ js) ->
+  C04.Model.linear_find PrimFloat.ltb PrimFloat.leb infinity dq n 1 = Some [(js, dq js)] /\
+  (forall j, (j < n)%nat -> j <> js -> R_ js < R_ j) /\
+  (forall dinfR, (forall i, (i < n)%nat -> R_ i < dinfR) ->
+     C04.Model.linear_find Rltb Rleb dinfR R_ n 1 = Some [(js, R_ js)]).
+Proof. exact knn1_euclid_float_robust. Qed.
+
+(* satisfiable: data (0.1, 0.2), (5.3, 4.1), (-3.7, 6.9), query (5.1, 4.4), js = 1 *)
+Example C12_knn1_float_robust_instance :
+  let data := [[0x1.999999999999ap-4; 0x1.999999999999ap-3]; [0x1.5333333333333p+2; 0x1.0666666666666p+2];
+               [-0x1.d99999999999ap+1; 0x1.b99999999999ap+2]]%float in
+  let q := [0x1.4666666666666p+2; 0x1.199999999999ap+2]%float in
+  let n := length data in
+  let p := length q in
+  let dq := fun i => PrimFloat.sqrt (C17.Model.sq_dist_loop FOps q (nth i data [])) in
+  let R_ := fun i => R_sqrt.sqrt (sqdist ROps (map FR q) (map FR (nth i data []))) in
+  (1 < n)%nat /\
+  (forall i, (i < n)%nat -> length (nth i data []) = p /\ PrimFloat.is_finite (dq i) = true /\
+                            C17.ProofsFloat.diff_normal_b q (nth i data []) = true) /\
+  (forall j, (j < n)%nat -> j <> 1%nat -> ((1 + u64) ^ (p + 3) - 1) * (R_ j + R_ 1%nat) < R_ j - R_ 1%nat) /\
+  C04.Model.linear_find PrimFloat.ltb PrimFloat.leb infinity dq n 1 = Some [(1%nat, dq 1%nat)].
+Proof. exact ex_knn1_robust. Qed.
+
+(* the margin is needed, and with sqrt even exactly computed squared distances do not help: points
+   (a, 1) and (a, 0), a = 2^26 + 1, query the origin; squared distances a^2 + 1 and a^2 are computed
+   exactly, sqrt(a^2 + 1) rounds to a: equal binary64 distances, the strict `<` keeps point 0, the exact
+   nearest neighbour is point 1 *)
+Theorem C12_knn1_float_margin_needed_refuted :
+  let data := [[67108865; 1]; [67108865; 0]]%float in
+  let q := [0; 0]%float in
+  let n := length data in
+  let dq := fun i => PrimFloat.sqrt (C17.Model.sq_dist_loop FOps q (nth i data [])) in
+  let R_ := fun i => R_sqrt.sqrt (sqdist ROps (map FR q) (map FR (nth i data []))) in
+  (forall i, (i < n)%nat -> length (nth i data []) = length q /\ PrimFloat.is_finite (dq i) = true /\
+                            C17.ProofsFloat.diff_normal_b q (nth i data []) = true) /\
+  R_ 1%nat < R_ 0%nat /\
+  C17.Model.sq_dist_loop FOps q (nth 0 data []) = 4503599761588226%float /\
+  C17.Model.sq_dist_loop FOps q (nth 1 data []) = 4503599761588225%float /\
+  dq 0%nat = dq 1%nat /\
+  C04.Model.linear_find PrimFloat.ltb PrimFloat.leb infinity dq n 1 = Some [(0%nat, dq 0%nat)].
+Proof. exact ex_knn1_margin_needed. Qed.
